@@ -36,6 +36,9 @@ def run(tier):
         jobs.extend(IE.event_jobs(PID, n, terms, d, dense))
     jobs.extend(IE.recursive_jobs(PID, cfgs))
     EC.obligations_of(reg, R, jobs)
+    # the recorded state/time pairs are judged by the event's own function: wrapper k given to the root finder is event k on the dense solution
+    from . import events as EV
+    EV.check_event_wrappers(reg, src, PID)
     for name in ("handle_events", "prepare_events", "OdeSystem.integrate", "DenseOutput.add_interpolant", "DenseOutput.remove_interpolant", "DenseOutput.__len__"):
         R.under_contract(src.func(IC.F, name))
     R.samples.append(dict(contract="OdeSystem.integrate[events]", loop_invariant=[IE.subst(x, 2, 1, "ite(end_int, 8 * eps, 0)") for x in IE.EVENT_INV]))
